@@ -258,12 +258,12 @@ type astStep struct {
 }
 
 type astReplay struct {
-	Kind  string              `json:"kind"` // "mutators" | "walk"
-	Names []string            `json:"names"`
-	Path  []astStep           `json:"path,omitempty"` // calls made before the failing one
-	Last  astStep             `json:"last,omitempty"`
+	Kind  string                `json:"kind"` // "mutators" | "walk"
+	Names []string              `json:"names"`
+	Path  []astStep             `json:"path,omitempty"` // calls made before the failing one
+	Last  astStep               `json:"last,omitempty"`
 	Want  []map[string][]string `json:"want,omitempty"`
-	Walk  *walkCase           `json:"walk,omitempty"`
+	Walk  *walkCase             `json:"walk,omitempty"`
 }
 
 // runPath executes path then last on a fresh pool; returns the observation after last.
